@@ -39,3 +39,30 @@ Theorem C04_finalize_logs_first : forall s now o,
      rlog (finalize s now o) = rlog s ++ [mklr (f_name f) (f_renamed f) (f_hash f) (f_size f) now]).
 Proof. exact finalize_logs_first. Qed.
 Print Assumptions C04_finalize_logs_first.
+
+(* ---- over every reachable state (no restriction on the history) -------------- *)
+From STS Require Import Proofs.StageKP.
+
+(* in every state the receiver can reach - by any sequence of announcements, parts,
+   duplicates, corruption, tampering, queries, cleaning, timers, cache ageing,
+   crashes with any image, restarts - whatever the cache knows as put away
+   (finalized in this run or loaded from the log) has a record in the receive log *)
+Theorem C04_put_away_means_logged : forall H ops n o,
+  In (n, o) (cache (srun H init_stage ops)) ->
+  ST_FINALIZED <= ostate (srun H init_stage ops) o -> logged (srun H init_stage ops) n.
+Proof.
+  intros H ops n o Hin Hst.
+  destruct (k_cache _ (KR_run H ops init_stage KR_init) n o Hin) as [_ [_ A]]. exact (A Hst).
+Qed.
+Print Assumptions C04_put_away_means_logged.
+
+(* hence, in every reachable state, the finalize handler logs and delivers a file
+   only if its predecessor reference is empty, the file itself, or a name that has
+   a record in the receive log ALREADY: no file is delivered before its predecessor *)
+Theorem C04_no_overtake_reachable : forall H ops now o,
+  let s := srun H init_stage ops in
+  rlog (handle_final s now o) <> rlog s ->
+  let f := obj s o in
+  f_prev f = [] \/ f_prev f = f_name f \/ logged s (f_prev f).
+Proof. exact no_overtake_reachable. Qed.
+Print Assumptions C04_no_overtake_reachable.
